@@ -246,7 +246,7 @@ structure Slot where
 
 structure World where
   table : Table := {}
-  slots : List Slot          -- ascending `sid`
+  slots : List Slot          -- in the order of the case's stream list
   deriving Repr, Inhabited
 
 structure Snap where
@@ -255,13 +255,15 @@ structure Snap where
   done : List Nat
   deriving DecidableEq, Repr, Inhabited
 
-def insertSlot (x : Slot) : List Slot → List Slot
-  | [] => [x]
-  | y :: ys => if x.sid < y.sid then x :: y :: ys else y :: insertSlot x ys
-
 def World.init (c : Case) : World :=
-  { slots := c.streams.foldl
-      (fun acc d => insertSlot ⟨d.sid, d.cache, d.pdus.flatMap Pdu.encode, none⟩ acc) [] }
+  { slots := c.streams.map (fun d => ⟨d.sid, d.cache, d.pdus.flatMap Pdu.encode, none⟩) }
+
+/-- the harness keeps its sessions in a `BTreeMap`: listings are in ascending `sid` order -/
+def insertBySid (x : Nat × Sess) : List (Nat × Sess) → List (Nat × Sess)
+  | [] => [x]
+  | y :: ys => if x.1 < y.1 then x :: y :: ys else y :: insertBySid x ys
+
+def sortBySid (l : List (Nat × Sess)) : List (Nat × Sess) := l.foldr insertBySid []
 
 def updSlot (sid : Nat) (f : Slot → Table → Slot × Table) : List Slot → Table → List Slot × Table
   | [], t => ([], t)
@@ -279,36 +281,38 @@ def roasOf (l : List (Net × Roa)) : List (Nat × Net × Nat × Nat) :=
 def World.snap (w : World) : Out Snap :=
   match w.table.iter .v4, w.table.iter .v6 with
   | .ok l4, .ok l6 =>
-      let started := w.slots.filterMap (fun x => x.client.map (fun c => (x.sid, c)))
+      let started := sortBySid (w.slots.filterMap (fun x => x.client.map (fun c => (x.sid, c))))
       .ok { roas := roasOf l4 ++ roasOf l6,
             sess := started.map (fun p => (p.1, p.2.serial, p.2.sessionId, p.2.sent)),
             done := (started.filter (fun p => p.2.done)).map (·.1) }
   | _, _ => .panic
 
+/-- the four script steps on the addressed slot -/
+def startF (x : Slot) (t : Table) : Slot × Table :=
+  ({ x with client := some (Sess.start x.cache x.sid) }, t)
+
+def sendF (n : Nat) (x : Slot) (t : Table) : Slot × Table :=
+  match x.client with
+  | some c => ({ x with rest := x.rest.drop n, client := some (feed c t (x.rest.take n)).1 },
+               (feed c t (x.rest.take n)).2)
+  | none => (x, t)
+
+def softF (x : Slot) (t : Table) : Slot × Table :=
+  match x.client with
+  | some c => ({ x with client := some (soft c t).1 }, (soft c t).2)
+  | none => (x, t)
+
+def closeF (x : Slot) (t : Table) : Slot × Table :=
+  match x.client with
+  | some c => ({ x with client := some (close c t).1 }, (close c t).2)
+  | none => (x, t)
+
 def World.step (w : World) : Step → World
-  | .start sid =>
-      let (sl, t) := updSlot sid (fun x t => ({ x with client := some (Sess.start x.cache x.sid) }, t)) w.slots w.table
-      { table := t, slots := sl }
+  | .start sid => { table := (updSlot sid startF w.slots w.table).2, slots := (updSlot sid startF w.slots w.table).1 }
   | .send sid n =>
-      let (sl, t) := updSlot sid (fun x t =>
-        match x.client with
-        | some c =>
-            let (c', t') := feed c t (x.rest.take n)
-            ({ x with rest := x.rest.drop n, client := some c' }, t')
-        | none => (x, t)) w.slots w.table
-      { table := t, slots := sl }
-  | .soft sid =>
-      let (sl, t) := updSlot sid (fun x t =>
-        match x.client with
-        | some c => let (c', t') := soft c t; ({ x with client := some c' }, t')
-        | none => (x, t)) w.slots w.table
-      { table := t, slots := sl }
-  | .close sid _ =>
-      let (sl, t) := updSlot sid (fun x t =>
-        match x.client with
-        | some c => let (c', t') := close c t; ({ x with client := some c' }, t')
-        | none => (x, t)) w.slots w.table
-      { table := t, slots := sl }
+      { table := (updSlot sid (sendF n) w.slots w.table).2, slots := (updSlot sid (sendF n) w.slots w.table).1 }
+  | .soft sid => { table := (updSlot sid softF w.slots w.table).2, slots := (updSlot sid softF w.slots w.table).1 }
+  | .close sid _ => { table := (updSlot sid closeF w.slots w.table).2, slots := (updSlot sid closeF w.slots w.table).1 }
   | .snap => w
 
 def runSteps : World → List Step → Out (List Snap)
